@@ -134,6 +134,10 @@ inductive Stmt where
   | aload (dst : Nat) (dt : Ty) (arr : Nat) (t : Ty) (n xb : Nat) (idx : Expr)
   /-- `a[idx] = e;` — `e` already converted to the element type `t` -/
   | astore (arr : Nat) (t : Ty) (n xb : Nat) (idx : Expr) (e : Expr3)
+  /-- element `j` of the array `arr` is initialised with `e`: `T a[n] = {e₀, …};` is the declaration `adecl`
+      followed by one `ainit` per element in increasing order — `{[j] = e}` designators included; an element
+      without initialiser gets the constant `0` (6.7.9p21). -/
+  | ainit (arr : Nat) (t : Ty) (n xb : Nat) (j : Nat) (e : Expr3)
   /-- `x = p[idx];` — `p` (variable `k`) is a read-only array parameter `const t p[w]`, i.e. a pointer; `c0` is
       the first of the `w` cells through which the callee sees the elements of the caller's array. -/
   | pload (dst : Nat) (dt : Ty) (k : Nat) (t : Ty) (w c0 : Nat) (idx : Expr)
@@ -362,6 +366,11 @@ def exec (cs : Bool) (P : List Func) : Nat → Store → Stmt → Option Outcome
     (evalE3 cs (callOf P fun s' st' => exec cs P m s' st') s e).bind fun v => (evalE cs s idx).bind fun iv =>
       if 0 ≤ iv ∧ iv < (n : Int) then some (.normal (s.set (ecell arr xb iv.toNat) (some v)))
       else none
+  | m + 1, s, .ainit arr _ n xb j e =>
+    if j < n then
+      (evalE3 cs (callOf P fun s' st' => exec cs P m s' st') s e).map fun v =>
+        .normal (s.set (ecell arr xb j) (some v))
+    else none
   | _ + 1, s, .pload dst dt _ t w c0 idx =>
     (evalE cs s idx).bind fun iv =>
       if 0 ≤ iv ∧ iv < (w : Int) then
@@ -544,6 +553,8 @@ def Stmt.wt (vtys : List Ty) (ret : Ty) : Bool → Bool → Nat → Stmt → Opt
     if arr < nd ∧ vtys[arr]? = some t ∧ idx.wt (vtys.take nd) = true ∧ e.ty = t ∧
         e.wt (vtys.take nd) = true
     then some nd else none
+  | _, _, nd, .ainit arr t _ _ _ e =>
+    if arr < nd ∧ vtys[arr]? = some t ∧ e.ty = t ∧ e.wt (vtys.take nd) = true then some nd else none
   | _, _, nd, .pload dst dt k _ _ _ idx =>
     if dst < nd ∧ vtys[dst]? = some dt ∧ k < nd ∧ vtys[k]? = some .ulong ∧ idx.wt (vtys.take nd) = true
     then some nd else none
@@ -590,7 +601,7 @@ def callsOK (P : List Func) : Stmt → Bool
         (List.zipWith (fun (pw : Ty × Nat) (pa : Nat × Ty × Nat × Nat) =>
           pw.1 == pa.2.1 && decide (pw.2 ≤ pa.2.2.1)) g.pwin pargs).all id
     | none => false
-  | .astore _ _ _ _ _ e => e.callsOK P
+  | .astore _ _ _ _ _ e | .ainit _ _ _ _ _ e => e.callsOK P
   | .switch_ e b => e.callsOK P && callsOK P b
   | .call _ rt fn args =>
     match lookup P fn with
@@ -618,6 +629,8 @@ def arrsOK (cnts : List Nat) : Stmt → Bool
   | .aload _ _ arr _ n xb _ => decide (1 ≤ n) && decide (cnts[arr]? = some n) && decide (xb = xbase cnts arr)
   | .astore arr _ n xb _ e =>
     decide (1 ≤ n) && decide (cnts[arr]? = some n) && decide (xb = xbase cnts arr) && e.arrsOK cnts
+  | .ainit arr _ n xb j e =>
+    decide (j < n) && decide (cnts[arr]? = some n) && decide (xb = xbase cnts arr) && e.arrsOK cnts
 
 /-- a variable declared as a scalar has one element -/
 def declsOK (cnts : List Nat) : Stmt → Bool
@@ -635,7 +648,8 @@ def declsOK (cnts : List Nat) : Stmt → Bool
     length and window cells; nothing is assigned to an array parameter (it is a pointer: the statements
     here treat variables as integers) and it is not passed on -/
 def ptrsOK (pw : List (Ty × Nat)) (wb : Nat → Nat) : Stmt → Bool
-  | .decl i _ _ | .assign i _ _ | .incdec i _ _ | .adecl i _ _ _ | .astore i _ _ _ _ _ => decide (pw.length ≤ i)
+  | .decl i _ _ | .assign i _ _ | .incdec i _ _ | .adecl i _ _ _ | .astore i _ _ _ _ _
+  | .ainit i _ _ _ _ _ => decide (pw.length ≤ i)
   | .aload dst _ arr _ _ _ _ => decide (pw.length ≤ dst) && decide (pw.length ≤ arr)
   | .call dst _ _ _ =>
     (match dst with
